@@ -56,7 +56,16 @@ SCENARIOS: Dict[str, List[Tuple]] = {
     "pub-other+sub-exact": [("pub", "jobs.1", ["a1"]), ("pub", "other", ["b1"]), ("sub", "jobs.1")],
     "3pub-two-channels": [("pub", "jobs.1", ["a1"]), ("pub", "jobs.1", ["b1"]), ("pub", "jobs.2", ["c1"])],
     "pub+2sub": [("pub", "jobs.1", ["a1", "a2"]), ("sub", "jobs.*"), ("sub", "jobs.1")],
+    # two consumers competing for messages that are already queued ("pre" entries are published before the threads start)
+    "2sub-prefilled": [("pre", "jobs.1", ["p1", "p2", "p3"]), ("sub", "jobs.*"), ("sub", "jobs.1")],
+    "2sub-prefilled-1msg": [("pre", "jobs.1", ["p1"]), ("sub", "jobs.1"), ("sub", "jobs.1")],
+    # a publisher that returns to the channel it used last while another publisher uses a different channel
+    "2pub-two-channels-repeat": [("pub", "jobs.a", ["a0", "a1"]), ("pub", "jobs.b", ["b0"])],
 }
+
+
+def _threads(name: str) -> List[Tuple]:
+    return [p for p in SCENARIOS[name] if p[0] != "pre"]
 
 
 def run_scenario(name: str, choose, record: Dict[str, Any]):
@@ -67,12 +76,17 @@ def run_scenario(name: str, choose, record: Dict[str, Any]):
     from semantiva.execution.transport.in_memory import InMemorySemantivaTransport
     from vt.linesched import HarnessStall, LineScheduler
 
-    prog = SCENARIOS[name]
+    pres = [p for p in SCENARIOS[name] if p[0] == "pre"]
+    prog = _threads(name)
     tr = InMemorySemantivaTransport()
     if any(p[1] == "old" for p in prog if p[0] == "pub"):
         tr.publish("old", ("pre", "old", "x"), ContextType({}))  # make the channel exist, then drain it
         list(tr.subscribe("old"))
     published: List[Tuple[int, str, str]] = []
+    for p in pres:
+        for payload in p[2]:
+            tr.publish(p[1], (-1, p[1], payload), ContextType({}))
+            published.append((-1, p[1], payload))
     delivered: Dict[int, List[Any]] = {}
     ls = LineScheduler(FILES)
     for i, p in enumerate(prog):
@@ -100,9 +114,21 @@ def run_scenario(name: str, choose, record: Dict[str, Any]):
     for w in ls.workers:
         if w.error is not None:
             return Fail("C14:%s:thread-raised:%s" % (name, type(w.error).__name__), "thread %d raised %r under schedule %r" % (w.tid, w.error, sched))
-    drained = [m.data for m in tr.subscribe("*")]
+    # final sequential drain, channel by channel with the exact channel name as pattern (then "*" for anything else)
+    all_channels = []
+    for p in SCENARIOS[name]:
+        if p[0] in ("pub", "pre") and p[1] not in all_channels:
+            all_channels.append(p[1])
+    drained_by: Dict[str, List[Any]] = {ch: [m.data for m in tr.subscribe(ch)] for ch in all_channels}
+    drained_by["*"] = [m.data for m in tr.subscribe("*")]
+    drained = [d for ch in list(all_channels) + ["*"] for d in drained_by[ch]]
     record["delivered"] = {i: list(v) for i, v in delivered.items()}
     record["drained"] = list(drained)
+    record["drained_by"] = {k: list(v) for k, v in drained_by.items()}
+    for ch in all_channels:
+        for d in drained_by[ch]:
+            if d[1] != ch:
+                return Fail("C14:%s:misrouted" % name, "subscribe(%r) yielded %r, a message published to %r (schedule %r)" % (ch, d, d[1], sched))
     got = [d for lst in delivered.values() for d in lst] + drained
     if sorted(got) != sorted(published):
         lost = [p for p in published if got.count(p) < published.count(p)]
@@ -146,7 +172,7 @@ def _policy(nthreads: int, first: int, pre: List[Tuple[int, int]]):
 
 def _make(param):
     name, P, maxsteps, first_fixed, t1_fixed = param
-    n = len(SCENARIOS[name])
+    n = len(_threads(name))
 
     def body(k1: int, k2: int, t2: int, k3: int, t3: int):
         from crosshair.tracers import NoTracing
@@ -179,7 +205,7 @@ def _make(param):
 
 def _replay(param, a):
     name, P, maxsteps, first_fixed, t1_fixed = param
-    n = len(SCENARIOS[name])
+    n = len(_threads(name))
     a = dict(a, first=first_fixed, t1=t1_fixed)
     pre = [(a["k%d" % (i + 1)], a["t%d" % (i + 1)]) for i in range(P)]
     rec: Dict[str, Any] = {}
@@ -206,14 +232,22 @@ def _steps(name: str) -> int:
 # ------------------------------------------------------------------------------------------------------------
 def _model_threads(name: str):
     """scenario -> (threads for the encoding, channel universe, pre-existing channels, message ids -> data tuple)."""
-    prog = SCENARIOS[name]
+    prog = _threads(name)
+    pres = [p for p in SCENARIOS[name] if p[0] == "pre"]
     channels: List[str] = []
-    for p in prog:
-        if p[0] == "pub" and p[1] not in channels:
+    for p in pres + prog:
+        if p[0] in ("pub", "pre") and p[1] not in channels:
             channels.append(p[1])
-    pre = [c for c in channels if c == "old" and _preexists_after_setup()]
+    pre = [c for c in channels if (c == "old" and _preexists_after_setup()) or any(q[1] == c for q in pres)]
     channels = pre + [c for c in channels if c not in pre]
     threads, ids = [], {}
+    premsgs: Dict[str, List[int]] = {}
+    for p in pres:
+        for payload in p[2]:
+            mid = 90 + len(ids)
+            ids[mid] = (-1, p[1], payload)
+            premsgs.setdefault(p[1], []).append(mid)
+    _model_threads.premsgs = premsgs
     for i, p in enumerate(prog):
         if p[0] == "pub":
             calls = []
@@ -239,12 +273,44 @@ def _preexists_after_setup() -> bool:
     return "old" in tr._queues
 
 
+def _attrs_after_setup(name: str, attr_names) -> Dict[str, Any]:
+    """plain instance attributes of the transport after the scenario's set-up phase (read off the real object), as
+    ("none",) | ("bool", v) | ("chan", channel) | ("pair", channel whose (deque, lock) entry it is)."""
+    from semantiva.context_processors import ContextType
+    from semantiva.execution.transport.in_memory import InMemorySemantivaTransport
+
+    tr = InMemorySemantivaTransport()
+    if any(p[1] == "old" for p in _threads(name) if p[0] == "pub"):
+        tr.publish("old", ("pre", "old", "x"), ContextType({}))
+        list(tr.subscribe("old"))
+    for p in SCENARIOS[name]:
+        if p[0] == "pre":
+            for payload in p[2]:
+                tr.publish(p[1], (-1, p[1], payload), ContextType({}))
+    out: Dict[str, Any] = {}
+    for a in attr_names:
+        v = getattr(tr, a, None)
+        if v is None:
+            out[a] = ("none",)
+        elif isinstance(v, bool):
+            out[a] = ("bool", v)
+        elif isinstance(v, str):
+            out[a] = ("chan", v)
+        elif isinstance(v, tuple) and len(v) == 2:
+            ch = [c for c, e in tr._queues.items() if e[0] is v[0]]
+            out[a] = ("pair", ch[0]) if ch else ("unknown",)
+        else:
+            out[a] = ("unknown",)
+    return out
+
+
 def _real_outcome(rec, ids, channels):
     inv = {v: k for k, v in ids.items()}
     logs = {i: [inv[d] for d in lst] for i, lst in rec["delivered"].items()}
     rem = {}
-    for d in rec["drained"]:
-        rem.setdefault(d[1], []).append(inv[d])
+    for ch, lst in rec["drained_by"].items():
+        for d in lst:
+            rem.setdefault(ch, []).append(inv[d])
     return logs, rem
 
 
@@ -256,7 +322,7 @@ def _encode(name: str, K: int):
     nmsg = len(ids)
     facts = S.ModuleFacts(im.__file__)
     B = S.Bounds(len(channels), len(pre) + nmsg + 1, len(facts.instance_locks) + len(pre) + nmsg + 1, nmsg + 1, nmsg + 1)
-    enc = S.Encoding(facts, threads, channels, pre, B)
+    enc = S.Encoding(facts, threads, channels, pre, B, premsgs=getattr(_model_threads, "premsgs", {}), init_attrs=_attrs_after_setup(name, sorted(facts.transport_attrs)))
     enc.unroll(K)
     return enc, ids, channels
 
@@ -394,12 +460,13 @@ def _replay_b(param, a):
 def obligations(tier: str) -> List[Ob]:
     P = 2 if tier == "quick" else 3
     names = list(SCENARIOS) if tier == "thorough" else ["2pub-new-channel", "2pub-existing-channel", "pub-new+sub-wildcard", "pub-existing+sub-exact", "2pub+sub-wildcard", "pub-other+sub-exact"]
-    two_thread = [nm for nm in names if len(SCENARIOS[nm]) == 2]
-    bnames = list(names) if tier == "thorough" else two_thread + ["2pub-new-channel-2msgs"]
+    two_thread = [nm for nm in names if len(_threads(nm)) == 2]
+    # C14.B decides every 2-thread scenario in seconds: the quick tier gives it all of them, C14.S keeps the original six
+    bnames = list(names) if tier == "thorough" else two_thread + ["2pub-new-channel-2msgs", "2sub-prefilled", "2sub-prefilled-1msg", "2pub-two-channels-repeat"]
     params = []
     for nm in names:
         st = _steps(nm)
-        n = len(SCENARIOS[nm])
+        n = len(_threads(nm))
         for first in range(n):
             for t1 in range(n):
                 params.append((nm, P, st, first, t1))
